@@ -306,15 +306,21 @@ def member(o, t) -> bool:
             return _admits_int(t[1])
         return False
     if k == "td":
-        # TypedDicts are open (PEP 589 structural typing): extra keys do not matter
+        # TypedDicts are open (PEP 589 structural typing): extra keys do not matter - but every key is a str
         if not isinstance(o, dict):
             return False
+        for key in o:
+            if not isinstance(key, str):
+                return False
         if "a" in o:
             return member(o["a"], t[3])
         return not t[1]
     if k == "td2":
         if not isinstance(o, dict):
             return False
+        for key in o:
+            if not isinstance(key, str):
+                return False
         if "a" not in o or not member(o["a"], t[1]):
             return False
         if "b" in o:
@@ -350,7 +356,7 @@ def _admits_str(t) -> bool:
 # ----------------------------------------------------------------------------------------
 
 OBJECT_KINDS = ["int", "bool", "str", "none", "float", "tuple0", "tuple1", "tuple2", "tuple_is", "list0", "list1", "list2",
-                "dict0", "dict_a", "dict_ab", "dict_an", "set1", "fset1", "bytes0", "bytes1", "enum", "instA", "instB", "clsA", "clsB", "clsint",
+                "dict0", "dict_a", "dict_ab", "dict_an", "dict_a2", "set1", "fset1", "bytes0", "bytes1", "enum", "instA", "instB", "clsA", "clsB", "clsint",
                 "fsub", "isub", "cplx"]
 
 
@@ -385,6 +391,8 @@ def make_object(kind: str, oi, oj, s):
         return {"a": oi}
     if kind == "dict_ab":
         return {"a": oi, "b": oj}
+    if kind == "dict_a2":  # a non-str key next to the declared one
+        return {"a": oi, 2: oj}
     if kind == "dict_an":
         return {"a": None, "b": oi}
     if kind == "set1":
@@ -599,7 +607,7 @@ def _compatible_kinds(tb) -> List[str]:
     if k == "frozenset":
         return ["fset1"]
     if k in ("dict", "mapping"):
-        return ["dict0", "dict_a", "dict_ab", "dict_an"]
+        return ["dict0", "dict_a", "dict_ab", "dict_an", "dict_a2"]
     if k in ("tuple", "vtuple", "pvtuple"):
         return ["tuple0", "tuple1", "tuple2", "tuple_is"]
     if k == "seq":
@@ -607,7 +615,7 @@ def _compatible_kinds(tb) -> List[str]:
     if k == "iter":
         return ["list0", "list1", "tuple1", "tuple2", "str", "bytes1", "set1", "fset1", "dict_a"]
     if k in ("td", "td2"):
-        return ["dict0", "dict_a", "dict_ab", "dict_an"]
+        return ["dict0", "dict_a", "dict_ab", "dict_an", "dict_a2"]
     if k in ("minlen", "maxlen"):
         return _compatible_kinds(tb[2])
     return OBJECT_KINDS
